@@ -151,7 +151,7 @@ class Net(nn.Module):
                 if h.get('flat', 'module') == 'module':
                     self.head['flatten'] = nn.Flatten()
                 hid = h.get('hidden', 4)
-                self.head['fc1'] = nn.Linear(c, hid)
+                self.head['fc1'] = nn.Linear(c, hid, bias=h.get('hbias', True))
                 if h.get('bn', True):
                     self.head['bn'] = nn.BatchNorm1d(hid)
                 self.head['relu'] = nn.ReLU()
@@ -345,10 +345,10 @@ def base_stages(dim):
 
 HEADS = [{'kind': 'flatlin'}, {'kind': 'gaplin'}, {'kind': 'fcn'}]
 
-CONV_OPTS = [{'bias': False}, {'bn': True}, {'s': 2}, {'k': 5}, {'k': 1}, {'k': 4}, {'d': 2}, {'pad': 'sym'}, {'pad': 'same'},
+CONV_OPTS = [{'bias': False}, {'bn': True}, {'bn': True, 'bias': False}, {'s': 2}, {'k': 5}, {'k': 1}, {'k': 4}, {'d': 2}, {'pad': 'sym'}, {'pad': 'same'},
              {'act': 'silu'}, {'act': 'frelu'}, {'act': None}, {'act': 'relu6'}, {'cout': 4}]
 HEAD_OPTS = {'flatlin': [{'flat': 'torch'}, {'flat': 'method'}, {'bias': False}],
-             'gaplin': [{'flat': 'torch'}, {'flat': 'method'}, {'flat': 'squeeze'}, {'bn': False}],
+             'gaplin': [{'flat': 'torch'}, {'flat': 'method'}, {'flat': 'squeeze'}, {'bn': False}, {'hbias': False}],
              'fcn': []}
 POOL_OPTS = [{'kind': 'avg'}, {'kind': 'adaptive'}]
 
@@ -436,7 +436,7 @@ def option_deviations(prog, with_fold=True):
                 q['stages'][i].update(o)
                 out.append(q)
         elif s['op'] in ('residual', 'skipadd', 'twice'):
-            for o in ({'bias': False}, {'bn': True}, {'k': 5}, {'k': 4}, {'d': 2}, {'s': 2}):
+            for o in ({'bias': False}, {'bn': True}, {'bn': True, 'bias': False}, {'k': 5}, {'k': 4}, {'d': 2}, {'s': 2}):
                 if s['op'] == 'skipadd' and 's' in o:
                     continue
                 q = _copy(prog)
